@@ -222,6 +222,21 @@ CLAIMED = {
              'supplied per argument). trusted: Coq kernel + vm_compute; hand-written model validated on generated inputs only.',
         technique='Coq proof (validator = binding + conformance predicate; evaluator characterisation lemmas) + end-to-end correspondence with both oracles cross-checked',
         design='6 C14'),
+    'C16': dict(
+        text='Theorems about the model of the two document assemblers (relative to prefix-abstract oracle data for what the schema extractors '
+             'return): with pairwise distinct keys every registered method is described exactly once, under its key, in registration order; '
+             'the entry of a method is a function of its own annotations, the extractor output for it and the global configuration (errors, '
+             'prefix, references of another method never occur in it); if the extractors only refer to components they return, every reference '
+             'resolves; the lists a user passed to annotate() are returned untouched and repeating the generation yields the identical document. '
+             'Correspondence: OpenAPI 3.0.3 / 3.1.0 and OpenRPC documents are really generated for random method sets, annotation combinations '
+             '(incl. one errors list shared between methods), extractor stacks, endpoint prefixes and 1..3 repeated generations; keys, documented '
+             'error codes per method, documented method names, reference closure, own-prefix of references, user-list snapshots and document '
+             'digests are judged in Coq; JSON-encodability and meta-schema validity are tests run on every document.',
+        note='PARTIAL, said plainly: pydantic\'s schema generator, docstring_parser and the three official meta-schemas are not modelled; validity and '
+             'encodability are tests. Known finding F18 (OpenAPI 3.0.x documents use `const`) suppresses exactly the cases whose only failure is the '
+             '3.0 meta-schema test. OpenRPC documents describe the main endpoint only (interpretation recorded in DESIGN.md). trusted: Coq kernel + vm_compute.',
+        technique='Coq proof (fold/dict lemmas over the assembler loop: completeness, isolation, closure, purity) + correspondence on really generated documents',
+        design='6 C16'),
 }
 
 PENDING_REASON = 'not claimed yet: model, theorems and correspondence for this property are not all in place in this commit (see DESIGN.md section 10)'
